@@ -78,6 +78,22 @@ pub fn invariants(c: &Conversation, rep: &mut Report) -> Vec<(&'static str, Stri
             match m {
                 RefMsg::Data { .. } | RefMsg::Count(_) | RefMsg::Complete(_) | RefMsg::Goodbye(_) if *r != Reply::Msg(None) => Some("protocol_error"),
                 RefMsg::Request(a, o) if *r != Reply::Msg(Some(RefMsg::Ack(*a, *o))) => Some("protocol_error"),
+                // the query that concludes a transfer attempt (the one right after the chunk count) admits two replies: the
+                // sign's own 'received' or 'failed' report of that transfer — anything else (still in progress, another state,
+                // another address, another kind of message, silence) is a reply the protocol does not allow there
+                RefMsg::Query(a) if *a == own && i >= 1 && matches!(log[i - 1].0, RefMsg::Count(_)) => {
+                    let config = log[..i].iter().rev().find_map(|(m, _)| match m {
+                        RefMsg::Request(_, o) if *o == O_RECV_CFG => Some(true),
+                        RefMsg::Request(_, o) if *o == O_RECV_PIX => Some(false),
+                        _ => None,
+                    });
+                    let allowed: &[usize] = match config {
+                        Some(true) => &[S_CFG_RECV, S_CFG_FAIL],
+                        Some(false) => &[S_PIX_RECV, S_PIX_FAIL],
+                        None => &[],
+                    };
+                    if config.is_some() && !is_report(r, own, allowed) { Some("protocol_error") } else { None }
+                }
                 _ => None,
             }
         };
